@@ -39,7 +39,7 @@ def r1_draw_submit(a, tier):
         'every task drawn from the task iterator is submitted and registered: each loop or comprehension over the task iterator '
         '(directly or through islice) evaluates ex.submit(process, <that task>) and stores the future as a key of the pending '
         'map; nothing else consumes the iterator',
-        floor=3,
+        floor=2,
     )
     fn = a.p.func(PMAP)
     pending = _pending_var(fn)
@@ -50,6 +50,18 @@ def r1_draw_submit(a, tier):
 
     def draws(e: ast.expr) -> bool:
         return any(isinstance(x, ast.Name) and x.id in iters for x in ast.walk(e))
+
+    # locals that alias the iterator or a lazy view of it (x = taskiter / x = islice(taskiter, n)) draw from it too
+    changed = True
+    while changed:
+        changed = False
+        for n in walk_no_defs(fn.node):
+            if isinstance(n, ast.Assign) and isinstance(n.targets[0], ast.Name) and n.targets[0].id not in iters:
+                v = n.value
+                if (isinstance(v, ast.Name) and v.id in iters) or (
+                        isinstance(v, ast.Call) and dotted(v.func).split('.')[-1] in ('islice', 'iter', 'chain', 'takewhile') and draws(v)):
+                    iters.add(n.targets[0].id)
+                    changed = True
 
     sites = 0
     for n in walk_no_defs(fn.node):
@@ -165,7 +177,7 @@ def r3_snapshot(a, tier):
         'the pending map is iterated only through as_completed(<pending>) (which snapshots it), the outer loop runs `while '
         '<pending>`, and inside that loop the map is mutated only by pop(<completed future>) and <pending>[new_future] = task: it '
         'is never re-assigned, filtered, cleared or deleted from, so a refill submitted during a pass is still pending in the next',
-        floor=3,
+        floor=2,
     )
     fn = a.p.func(PMAP)
     pending = _pending_var(fn)
